@@ -314,11 +314,23 @@ class ArgumentParser(ParserDeprecations, ActionsContainer, ArgumentLinking, argp
                 kwargs = {}
                 if _parse_known_has_intermixed:
                     kwargs["intermixed"] = False
+                self._parsing_namespace = namespace
                 namespace, args = self._parse_known_args(args, namespace, **kwargs)
         except argparse.ArgumentError as ex:
             self.error(str(ex), ex)
+        finally:
+            self._parsing_namespace = None
 
         return namespace, args
+
+    def _get_values(self, action, arg_strings):
+        namespace = getattr(self, "_parsing_namespace", None)
+        if namespace is not None and not arg_strings and not action.option_strings and action.nargs in {"?", "*"}:
+            # positional that can be empty and is not in the command line: keep the value from environment or config
+            value = namespace.get(action.dest) if isinstance(namespace, Namespace) else getattr(namespace, action.dest, None)
+            if value is not None:
+                return value
+        return super()._get_values(action, arg_strings)
 
     def _positional_optionals(self, cfg, unk):
         if len(unk) == 0 or not supports_optionals_as_positionals(self):
